@@ -5,7 +5,7 @@ SymmetricTensor.__new__, KroneckerDelta.eval / _eval_power."""
 import z3
 from pyvc import contract as C
 from pyvc.contract import Contract, register
-from pyvc.values import (Struct, Sym, PList, PyFunc, ClassRef, term, wrap, zand,
+from pyvc.values import (Struct, Sym, PList, PDict, PyFunc, ClassRef, term, wrap, zand,
                          zor, znot, zeq, is_enum, enum_eq, Unsupported)
 from pyvc.vc import RaiseEx
 from spec.idx import (IdxSort, idx_space, idx_spin, new_index,
@@ -20,6 +20,7 @@ ASSUMPTIONS = [
     "sympy: (i - j).is_zero is True iff i and j are the same Dummy, None otherwise; fuzzy_not(None) is None",
     "CPython hash(): an arbitrary integer function of the object",
     "z3 string order str.< is the code point lexicographic order Python uses for str comparison",
+    "add_bra_ket_sym / _apply_tensor_braket_sym: tensor classes AntiSymmetricTensor, SymmetricTensor, Amplitude (and NonSymmetricTensor, KroneckerDelta as objects without bra-ket symmetry); the subclass relation is read from the class statements of the real source; symbol, index tuples, exponent and assumptions are opaque; precondition: a tensor name is not listed in sym_tensors and antisym_tensors at once; sympy.Pow(b, e) builds the power of b",
 ]
 
 
@@ -539,3 +540,111 @@ class AddBraKetSym(Contract):
                 ("and-the-requested-bra-ket-symmetry",
                  ok and len(args) == 4 and isinstance(args[3], Sym) and args[3].t.eq(want)),
                 ("only-a-tensor-without-bra-ket-symmetry-is-rebuilt", z3.And(have == 0, want != 0))]
+
+
+# --- Obj._apply_tensor_braket_sym: tensors listed in sym_tensors / antisym_tensors get that -----------
+# bra-ket symmetry, whatever subclass of AntiSymmetricTensor they are; everything else is untouched
+@register
+class ApplyTensorBraketSym(Contract):
+    key = "adcgen.expr_container:Obj._apply_tensor_braket_sym"
+    props = ["C06"]
+    KINDS = ["adcgen.sympy_objects:AntiSymmetricTensor", "adcgen.sympy_objects:SymmetricTensor",
+             "adcgen.sympy_objects:Amplitude", "adcgen.sympy_objects:NonSymmetricTensor",
+             "adcgen.sympy_objects:KroneckerDelta"]
+
+    @staticmethod
+    def _has_braket(ckey):
+        """subclass of AntiSymmetricTensor according to the class statements of the real source"""
+        from pyvc.source import SourceTable
+        src = ApplyTensorBraketSym._src = getattr(ApplyTensorBraketSym, "_src", None) or SourceTable()
+        top = "adcgen.sympy_objects:AntiSymmetricTensor"
+        seen, todo = set(), [ckey]
+        while todo:
+            c = todo.pop()
+            if c == top:
+                return True
+            if c in seen or c not in src.classes:
+                continue
+            seen.add(c)
+            todo.extend(b for b in src.class_bases(c) if isinstance(b, str))
+        return False
+
+    def setup(self, vc):
+        from spec.exprval import ONE, NEG_ONE, ZERO
+        C.EXTERNALS["sympy.S.One"], C.EXTERNALS["sympy.S.NegativeOne"], C.EXTERNALS["sympy.S.Zero"] = ONE, NEG_ONE, ZERO
+        kind = self.KINDS[vc.choose(len(self.KINDS), "class")]
+        # (precondition: a tensor name is not declared symmetric and antisymmetric at once)
+        listed = vc.choose(3, "listed_in")
+        in_sym, in_anti = listed == 1, listed == 2
+        bk = vc.fresh_int("bra_ket_sym_of_the_tensor")
+        vc.assume(z3.And(bk >= -1, bk <= 1))
+        base = Struct("BaseTensor", klass=kind, name="T", bk=Sym(bk))
+        C.STRUCT_ATTR[("BaseTensor", "name")] = lambda ip, o: o.f["name"]
+        C.STRUCT_ATTR[("BaseTensor", "bra_ket_sym")] = lambda ip, o: o.f["bk"]
+        C.STRUCT_ISINSTANCE["BaseTensor"] = lambda ip, v, cls: any(
+            getattr(c, "key", None) == v.f["klass"]
+            or (getattr(c, "key", None) == "adcgen.sympy_objects:AntiSymmetricTensor" and self._has_braket(v.f["klass"]))
+            for c in (cls if isinstance(cls, tuple) else (cls,)))
+
+        def add_sym(ip, o, a, k):
+            want = a[0] if a else k["bra_ket_sym"]
+            have = o.f["bk"].t
+            if ip.vc.decide(z3.And(have != want, have != 0)):
+                raise RaiseEx("Inputerror", "(contract of add_bra_ket_sym)")
+            if ip.vc.decide(have == want):
+                return o
+            return Struct("BaseTensor", klass=o.f["klass"], name=o.f["name"], bk=want, of=o)
+        C.STRUCT_METHODS[("BaseTensor", "add_bra_ket_sym")] = add_sym
+        me = Struct("ObjSelf2", base=base, exponent=Struct("Opaque", what="exponent"),
+                    sympy=Struct("Opaque", what="sympy of the object"),
+                    sym_tensors=("T",) if in_sym else ("other",), antisym_tensors=("T",) if in_anti else (),
+                    assm=Struct("Opaque", what="assumptions"))
+        C.STRUCT_ATTR[("ObjSelf2", "base_and_exponent")] = lambda ip, o: (o.f["base"], o.f["exponent"])
+        for f in ("sympy", "sym_tensors", "antisym_tensors"):
+            C.STRUCT_ATTR[("ObjSelf2", f)] = (lambda f: lambda ip, o: o.f[f])(f)
+        C.STRUCT_ATTR[("ObjSelf2", "assumptions")] = lambda ip, o: PDict({"marker": o.f["assm"]})
+        C.EXTERNALS["sympy.Pow"] = lambda ip, a, k: Struct("PowV", base=a[0], exp=a[1])
+        C.CLASS_MODELS["adcgen.expr_container:Expr"] = lambda ip, a, k: Struct("ExprV", of=a[0], kw=dict(k))
+        return {"self": me, "return_sympy": vc.choose(2, "return_sympy") == 1,
+                "_in_sym": in_sym, "_in_anti": in_anti}
+
+    def _want(self, a):
+        """requested symmetry (z3 term or None): sym_tensors wins over antisym_tensors"""
+        me = a["self"].f
+        if not self._has_braket(me["base"].f["klass"]):
+            return None, None
+        bk = me["base"].f["bk"].t
+        # 1 if listed as symmetric and not yet symmetric; else -1 if listed as antisymmetric and not yet so
+        c1 = z3.And(z3.BoolVal(a["_in_sym"]), bk != 1)
+        c2 = z3.And(z3.Not(c1), z3.BoolVal(a["_in_anti"]), bk != -1)
+        return c1, c2
+
+    def raises(self, vc, a):
+        c1, c2 = self._want(a)
+        if c1 is None:
+            return []
+        bk = a["self"].f["base"].f["bk"].t
+        return [("Inputerror", z3.Or(z3.And(c1, bk == -1), z3.And(c2, bk == 1)))]
+
+    def post(self, vc, a, result):
+        me = a["self"].f
+        c1, c2 = self._want(a)
+        if a["return_sympy"]:
+            obj, wrapped = result, True
+        else:
+            wrapped = isinstance(result, Struct) and result.cls == "ExprV" and \
+                set(result.f["kw"]) == {"marker"} and result.f["kw"]["marker"] is me["assm"]
+            obj = result.f["of"] if wrapped else None
+        out = [("an-expression-with-the-assumptions-of-the-object-is-returned-unless-sympy-is-requested", wrapped)]
+        untouched = obj is me["sympy"]
+        if c1 is None:
+            return out + [("objects-without-bra-ket-symmetry-are-untouched", untouched)]
+        if untouched:
+            return out + [("a-listed-tensor-is-untouched-only-if-it-has-the-symmetry-already", z3.Not(z3.Or(c1, c2)))]
+        ok = isinstance(obj, Struct) and obj.cls == "PowV" and obj.f["exp"] is me["exponent"] \
+            and isinstance(obj.f["base"], Struct) and obj.f["base"].cls == "BaseTensor" \
+            and obj.f["base"].f.get("of") is me["base"] and obj.f["base"].f["klass"] == me["base"].f["klass"]
+        got = obj.f["base"].f["bk"] if ok else 0
+        return out + [("the-same-tensor-with-the-same-exponent", ok),
+                      ("gets-the-listed-symmetry",
+                       z3.And(z3.Or(c1, c2), z3.IntVal(got) == z3.If(c1, 1, -1)) if ok and isinstance(got, int) else False)]
